@@ -266,8 +266,58 @@ fn arm_of(names: &[String]) -> String {
   if v.is_empty() { "none".to_string() } else { v.iter().map(|s| s.split('<').next().unwrap_or("").to_string()).collect::<Vec<_>>().join("+") }
 }
 
+impl C01 {
+  /// Every operator with its operands bound locally (function parameters, match-arm bindings, comprehension generators), every local name
+  /// shadowed by a global of another value; scalar operands in every context, matrix operands as function parameters and match bindings.
+  fn context_unit(&mut self, unit: u64, out: &mut WorkerOut) {
+    let kinds = ["f64", "u8", "i64", "f32", "bool", "string", "r64", "i8", "u64"];
+    if unit as usize >= kinds.len() * 2 { return; }
+    let kind = kinds[(unit / 2) as usize];
+    let matrix = unit % 2 == 1;
+    let scalar_vals: Vec<(&str, &str)> = match kind { "bool" => vec![("true", "false"), ("false", "false")], "string" => vec![("\"p\"", "\"q\""), ("\"p\"", "\"p\"")], "r64" => vec![("7/2", "3/4"), ("1/2", "1/2")], _ => vec![("7", "2"), ("3", "3"), ("2", "5")] };
+    let shadow = match kind { "bool" => ("true", "true"), "string" => ("\"z\"", "\"y\""), "r64" => ("9/1", "5/1"), _ => ("9", "4") };
+    let def = |name: &str, v: &str| match kind { "bool" | "string" | "r64" => format!("{} := {}", name, v), _ => format!("{}<{}> := {}", name, kind, v) };
+    let mut s = Session::new();
+    for d in [def("a", shadow.0), def("b", shadow.1)] { if !s.run(&d).is_value() { out.count("context_setup_rejected"); return; } }
+    let mut n = 0usize;
+    for (av, bv) in scalar_vals {
+      n += 1;
+      let (ga, gb) = (format!("ga{}", n), format!("gb{}", n));
+      let (da, db) = if matrix {
+        let elems = |v: &str, w: &str| vec![v.to_string(), w.to_string(), v.to_string(), w.to_string()];
+        (define_matrix(&ga, kind, &elems(av, bv), 2, 2), define_matrix(&gb, kind, &elems(bv, bv), 2, 2))
+      } else { (def(&ga, av), def(&gb, bv)) };
+      if !s.run(&da).is_value() || !s.run(&db).is_value() { out.count("context_setup_rejected"); continue; }
+      let pk = if matrix { format!("[{}]", kind) } else { kind.to_string() };
+      let mut exprs: Vec<(String, String, bool)> = ops_for(kind).iter().map(|op| (format!("a {} b", op), format!("{} {} {}", ga, op, gb), true)).collect();
+      if kind == "bool" { exprs.push(("!a".into(), format!("!{}", ga), false)); exprs.push(("!(a && b)".into(), format!("!({} && {})", ga, gb), true)); }
+      else if kind != "string" && !is_unsigned(kind) { exprs.push(("-a".into(), format!("-{}", ga), false)); exprs.push(("-(a - b)".into(), format!("-({} - {})", ga, gb), true)); }
+      if kind != "string" && kind != "bool" { exprs.push(("(a + b) * a".into(), format!("({} + {}) * {}", ga, gb, ga), true)); exprs.push(("a * b + b".into(), format!("{} * {} + {}", ga, gb, gb), true)); }
+      for (ei, (local, top, two)) in exprs.iter().enumerate() {
+        out.evaluations += 1;
+        let uniq = n * 100 + ei;
+        let base = s.run(&format!("lcb{} := {}", uniq, top));
+        let Outcome::Value(bc) = &base else { out.count("context_base_rejected"); continue; };
+        let rk = match bc { Canon::Matrix(k, ..) => format!("[{}]", k), other => other.kind_name() };
+        let mut vars = vec![crate::ctx::lv("a", &ga, &pk)];
+        if *two { vars.push(crate::ctx::lv("b", &gb, &pk)); }
+        let res = crate::ctx::eval_in_contexts(&mut s, uniq, &vars, local, &rk, top, !matrix, !matrix);
+        for (ctx, text, o) in res {
+          out.evaluations += 1;
+          let case = format!("{}; {} (globals a, b); {}; {}; {}   versus r := {}", def("a", shadow.0), def("b", shadow.1), da, db, text, top);
+          match crate::ctx::differs(&base, ctx, &o) {
+            None => { out.nontrivial += 1; out.count(&format!("context_agrees:{}", ctx)); }
+            Some(d) => out.fail(format!("C01|local-context-differs|{}:{}:{}{}", ctx, local, kind, if matrix { ":matrix" } else { "" }), case, d),
+          }
+        }
+      }
+    }
+  }
+}
+
 impl UnitRunner for C01 {
   fn unit(&mut self, _payload: &str, unit: u64, out: &mut WorkerOut) {
+    if _payload == "contexts" { return self.context_unit(unit, out); }
     let (nk, nl, nr, na) = self.dims();
     let mut u = unit;
     let assign = (u % na) as usize; u /= na;
@@ -455,7 +505,9 @@ impl Check for C01 {
       "operand spellings: every application is repeated with both operands parenthesised and, for kinds whose literals keep their kind inside an expression (f64, bool, string, c64, u8, u16, u32), with both / either operand written as a literal, and with both / either operand held in a mutable variable (~a); the outcome must be identical to the one with variables".into(),
     ];
     rep.cov("bounds", json!({"kinds": ALL_KINDS, "shapes": shapes(tier), "assignments": na, "units": n}));
-    drive_ranges(cfg, rep, range_jobs("", n, 8));
+    let mut jobs = range_jobs("", n, 8);
+    jobs.extend(range_jobs("contexts", 18, 1));
+    drive_ranges(cfg, rep, jobs);
     let sj = rep.out.sets.get("scalar_judged").map(|s| s.len()).unwrap_or(0) as u64;
     let su = rep.out.sets.get("scalar_unjudged").map(|s| s.len()).unwrap_or(0) as u64;
     rep.out.evaluations += sj + su;
